@@ -234,8 +234,9 @@ def t2(repo, res, canon, pc, logic):
     for p in spaths:
         for i, e in enumerate(p.events):
             if stmt_contains(e, lambda x: x is sp):
-                must = path_must(logic, p, i, depth=0)
-                locs = [l.atom.split(' in ', 1)[1] for l in must if not l.pol and l.atom.startswith(M + ' in ')]
+                must = path_must(logic, p, i, depth=1)
+                locs = [l.atom.split(' in ', 1)[1] for l in must if not l.pol and l.atom.startswith(M + ' in ')
+                        and not l.atom.split(' in ', 1)[1].startswith('Cluster.')]
                 found = False
                 for cand in locs:
                     app = False
@@ -260,36 +261,32 @@ def t3(repo, res, canon, pc, logic):
     f = repo.func('Scheduler._update_current_plan')
     fr = Frame(f)
     res.analysed(f, len(cached_paths(f)))
-    loops = [n for n in walk_no_nested(f.node) if isinstance(n, ast.For)]
-    ok = bool(loops)
-    why = 'no loop over the plan\'s tasks'
-    if loops:
-        lp = loops[0]
-        if canon.c(lp.iter, fr) != '%s.tasks' % f.params[1]:
-            ok, why = False, 'the loop runs over %s' % canon.c(lp.iter, fr)
-        tv = lp.target.id if isinstance(lp.target, ast.Name) else '?'
-        rets = [n for n in walk_no_nested(f.node) if isinstance(n, ast.Return)]
-        keep = rets[0].value.id if rets and isinstance(rets[0].value, ast.Name) else None
-        for seg, how in iteration_segments(f, lp):
-            if how != 'back':
-                ok, why = False, 'the loop can stop early (%s): later tasks drop out of the plan unexecuted' % how
-                continue
-            fin = None
-            for e in seg:
-                if e.kind == 'test':
-                    for l in logic.must(e.node, e.frame, e.pol):
-                        if l.atom == 'TaskStatus.FINISHED == %s.task_status' % tv:
-                            fin = l.pol
-            kept = sum(1 for e in seg for ef in effects_of_event(canon, e)
-                       if ef.kind == 'append' and ef.loc == keep and ef.arg == tv)
-            if fin is None:
-                ok, why = False, 'a task is kept or dropped without testing whether it is FINISHED'
-            elif fin and kept:
-                ok, why = False, 'a FINISHED task is kept in the plan'
-            elif not fin and kept != 1:
-                ok, why = False, ('a task that is not FINISHED is dropped from the plan (kept %d times): it will '
-                                  'never execute' % kept)
-    (res.ok if ok else res.bad)('C04.T3', f, loops[0] if loops else None,
+    plogic = Logic(pc)
+    rets = [n for n in walk_no_nested(f.node) if isinstance(n, ast.Return) and n.value is not None]
+    ok = bool(rets)
+    why = '_update_current_plan returns nothing'
+    for r in rets:
+        parts = pc.seq_parts(r.value, fr)
+        if parts is None:
+            ok, why = False, 'the remaining-task list is not built as "the tasks of the plan that ..." (%s)' % short(pc.p(r.value, fr))
+            continue
+        elt, it, conds, lvars = parts
+        src = pc.p(it, fr)
+        E = pc.p(elt, fr)
+        if src != '%s.tasks' % f.params[1]:
+            ok, why = False, 'the remaining tasks are taken from %s, not from the plan\'s task list' % short(src)
+        elif E != 'elem(%s)' % src:
+            ok, why = False, 'the remaining-task list holds %s, not the tasks themselves' % short(E)
+        else:
+            lits = set()
+            for c_, pol in conds:
+                lits |= plogic.must(c_, fr, pol)
+            want = Lit('TaskStatus.FINISHED == %s.task_status' % E, False)
+            if lits != {want}:
+                ok, why = False, ('a task is kept in the plan under %s, not exactly when it is not FINISHED: finished '
+                                  'tasks stay (re-offered) or unfinished tasks are dropped (never executed)' % (
+                                      sorted(map(repr, lits)) or 'no condition'))
+    (res.ok if ok else res.bad)('C04.T3', f, rets[0] if rets else None,
                                 '_update_current_plan keeps exactly the tasks that are not FINISHED', 'ok' if ok else why)
     a = repo.func('Scheduler.allocate_tasks')
     afr = Frame(a)
